@@ -87,19 +87,64 @@ def _idents(expr, acc):
             _idents(a, acc)
 
 
+CTOK = re.compile(r'\s*(?:(?P<com>//[^\n]*|/\*.*?\*/)|(?P<str>"(?:[^"\\]|\\.)*")|(?P<num>[-+]?(?:\d+\.?\d*|\.\d+)(?:[eE][-+]?\d+)?)'
+                  r'|(?P<id>(?:new\s+)?[A-Za-z_][\w]*(?:(?:::|\.)[A-Za-z_][\w]*)*(?:<[^(){};"]*>)?)|(?P<p>[(){}\[\],;=*]))', re.S)
+
+
+def statements(text):
+    """C++ text -> [(tokens without comments, comments seen since the previous statement)], split at top-level ';'."""
+    i, depth = 0, 0
+    out, cur, coms = [], [], []
+    while i < len(text):
+        m = CTOK.match(text, i)
+        if not m:
+            if text[i:].strip() == "":
+                break
+            raise Unreadable(f"cannot tokenise {text[i:i + 40]!r}")
+        i = m.end()
+        k = m.lastgroup
+        v = m.group(k)
+        if k == "com":
+            if not cur:
+                coms.append(v)
+            continue
+        if k == "p" and v in "({[":
+            depth += 1
+        elif k == "p" and v in ")}]":
+            depth -= 1
+            if depth < 0:
+                raise Unreadable("unbalanced closing bracket")
+        if k == "p" and v == ";" and depth == 0:
+            if cur:
+                out.append((cur, coms))
+            cur, coms = [], []
+            continue
+        cur.append((k, v))
+    if cur:
+        raise Unreadable(f"text ends inside a statement: {cur[:6]}")
+    return out
+
+
+def _unwrap_vector(e):
+    """std::vector<T>({a, b}) / std::vector<T>{a, b} / {a, b}  ->  [a, b]"""
+    if e[0] == "c" and e[1].split(".")[-1] == "vector":
+        args = e[2]
+        if len(args) == 1 and args[0][0] == "t":
+            return args[0][1]
+        return args
+    if e[0] == "t":
+        return e[1]
+    raise Unreadable(f"expected a vector expression, got {e!r}"[:200])
+
+
 def read_cpp(text):
-    """C++ output -> abstract model (+ 'undeclared': symbols used before / without declaration, in statement order)."""
-    if "// Intro" not in text:
-        raise Unreadable("no '// Intro' section")
-    body = text[text.index("// Intro"):]
-    m = {"consts": {}, "resvars": {}, "pars": {}, "arrays": {}, "amps": [], "event": None, "masses": None, "undeclared": [], "order": []}
-    ev = re.search(r"// Event type: (.*)", body)
-    m["event"] = ev.group(1).strip() if ev else None
-    try:
-        intro, rest = body.split("// Parameters", 1)
-        pars, lines = rest.split("// Lines", 1)
-    except ValueError as e:
-        raise Unreadable("sections '// Parameters' / '// Lines' missing") from e
+    """C++ output -> abstract model (+ 'undeclared': symbols used before / without declaration, in statement order).
+
+    The text is read statement by statement (comments and line layout do not matter): constants, Variables, arrays of
+    Variables, the particle-mass assignment, and per amplitude the three push_back statements."""
+    ev = re.search(r"Event type: (.*)", text)
+    m = {"consts": {}, "resvars": {}, "pars": {}, "arrays": {}, "amps": [], "event": ev.group(1).strip() if ev else None, "masses": None,
+         "undeclared": [], "order": [], "other_statements": []}
     declared = set()
 
     def use(name, where):
@@ -108,49 +153,102 @@ def read_cpp(text):
             return
         m["undeclared"].append((name, where))
 
-    for name, val in re.findall(r"constexpr fptype (\w+)\s*\{\s*([^}]*?)\s*\};", intro):
-        m["consts"][name] = float(val)
-        declared.add(name)
-    for name, q, val in re.findall(r'Variable (\w+)\s*\{\s*"([^"]*)"\s*,\s*([^}]*?)\s*\};', intro):
-        m["resvars"][name] = (q, float(val))
-        declared.add(name)
-    mm = re.search(r"DK3P_DI.particle_masses = \{(.*?)\};", intro)
-    m["masses"] = mm.group(1).replace(" ", "").split(",") if mm else None
-    for x in m["masses"] or []:
-        use(x, "particle_masses")
-    # parameters section, statement by statement (order matters for def-before-use)
-    for stmt in re.finditer(r'(?:^\s*Variable (\w+) \{"([^"]*)", ([^}]*?) ?\};)|(?:std::vector<Variable>\s+(\w+) \{\{\n(.*?)\n\s*\}\};)', pars, re.M | re.S):
-        if stmt.group(1):
-            v = [float(x) for x in stmt.group(3).split(",")]
-            m["pars"][stmt.group(1)] = (stmt.group(2), v[0], v[1] if len(v) > 1 else None)
-            m["order"].append(stmt.group(1))
-            declared.add(stmt.group(1))
-        else:
-            items = [x.strip().rstrip(",") for x in stmt.group(5).splitlines() if x.strip()]
-            for x in items:
-                use(x, "array " + stmt.group(4))
-            m["arrays"][stmt.group(4)] = items
-            declared.add(stmt.group(4))
-    for blk in re.split(r"// Line \d+\n", lines)[1:]:
-        sf = re.search(r"spin_factor_list.push_back\(std::vector<SpinFactor\*>\(\{\n(.*?)\n\s*\}\)\);", blk, re.S)
-        lf = re.search(r"line_factor_list.push_back\(std::vector<Lineshape\*>\{\n(.*?)\n\s*\}\);", blk, re.S)
-        am = re.search(r"amplitudes_list.push_back\((new Amplitude\{.*?\})\);", blk, re.S)
-        if not (sf and lf and am):
-            raise Unreadable("amplitude block without spin factors / lineshapes / amplitude")
-        sfs, _ = parse_list(tokens(sf.group(1) + " )"), 0, ")")
-        lfs, _ = parse_list(tokens(lf.group(1) + " )"), 0, ")")
-        a, _ = parse_expr(tokens(am.group(1)), 0)
+    def use_all(exprs, where):
         acc = []
-        for e in sfs + lfs + [a]:
+        for e in exprs:
             _idents(e, acc)
         for x in acc:
-            if isinstance(x, tuple):
-                use(x[1], "amplitude block")
+            use(x[1] if isinstance(x, tuple) else x, where)
+
+    seen_masses = False
+    pend = {}
+    stmts = statements(text)
+    if not stmts:
+        raise Unreadable("no statement in the C++ text")
+    for t, coms in stmts:
+        ids = [v for k, v in t if k == "id"]
+        head = t[0][1] if t[0][0] == "id" else None
+        if head == "constexpr" and len(t) >= 4 and t[1][1] == "fptype":
+            e, _ = parse_expr(t, 2)
+            if not (e[0] == "c" and len(e[2]) == 1):
+                raise Unreadable(f"constant declaration {t[:8]}")
+            use_all(e[2], "constant " + e[1])
+            m["consts"][e[1]] = e[2][0][1] if e[2][0][0] == "n" else e[2][0]
+            declared.add(e[1])
+        elif head == "Variable" and len(t) >= 3:
+            e, _ = parse_expr(t, 1)
+            if not (e[0] == "c" and e[2] and e[2][0][0] == "s" and all(x[0] == "n" for x in e[2][1:]) and len(e[2]) >= 2):
+                raise Unreadable(f"Variable declaration {t[:10]}")
+            q = e[2][0][1]
+            v = [x[1] for x in e[2][1:]]
+            if not seen_masses:
+                m["resvars"][e[1]] = (q, v[0])
             else:
-                use(x, "amplitude block")
-        comment = re.search(r"^\s*// (.*)$", blk, re.M)
-        m["amps"].append({"sf": sfs, "ls": lfs, "amp": a, "comment": comment.group(1).strip() if comment else None,
-                          "registered": "DK3P_DI.amplitudes_B.push_back(amplitudes_list.back());" in blk})
+                m["pars"][e[1]] = (q, v[0], v[1] if len(v) > 1 else None)
+                m["order"].append(e[1])
+            declared.add(e[1])
+        elif head is not None and head.startswith("std::vector<"):
+            if len(t) == 2 and t[1][0] == "id":
+                declared.add(t[1][1])           # declaration without initialiser
+                continue
+            e, _ = parse_expr(t, 1)
+            if e[0] != "c":
+                raise Unreadable(f"vector declaration {t[:8]}")
+            items = e[2][0][1] if len(e[2]) == 1 and e[2][0][0] == "t" else e[2]
+            names = []
+            for x in items:
+                if x[0] != "i":
+                    raise Unreadable(f"array member {x!r}")
+                use(x[1], "array " + e[1])
+                names.append(x[1])
+            m["arrays"][e[1]] = names
+            declared.add(e[1])
+        elif len(t) >= 3 and t[0][0] == "id" and t[1][1] == "=":
+            e, _ = parse_expr(t, 2)
+            if head == "DK3P_DI.particle_masses":
+                if e[0] != "t" or any(x[0] != "i" for x in e[1]):
+                    raise Unreadable(f"particle_masses {e!r}"[:200])
+                m["masses"] = [x[1] for x in e[1]]
+                for x in m["masses"]:
+                    use(x, "particle_masses")
+                seen_masses = True
+            else:
+                use_all([e], "assignment to " + head)
+                m["other_statements"].append(head)
+        elif head is not None and head.endswith(".push_back"):
+            e, _ = parse_expr(t, 0)
+            if e[0] != "c" or len(e[2]) != 1:
+                raise Unreadable(f"push_back statement {t[:6]}")
+            arg = e[2][0]
+            target = head[: -len(".push_back")]
+            if target == "spin_factor_list":
+                if "sf" in pend:
+                    raise Unreadable("two spin-factor lists without an amplitude in between")
+                pend["sf"] = _unwrap_vector(arg)
+                com = [c[2:].strip() for c in coms if c.startswith("//") and not re.fullmatch(r"//\s*Line \d+\s*", c)]
+                pend["comment"] = com[-1] if com else None
+            elif target == "line_factor_list":
+                if "ls" in pend:
+                    raise Unreadable("two lineshape lists without an amplitude in between")
+                pend["ls"] = _unwrap_vector(arg)
+            elif target == "amplitudes_list":
+                if not ("sf" in pend and "ls" in pend):
+                    raise Unreadable("amplitude block without spin factors / lineshapes")
+                use_all(pend["sf"] + pend["ls"] + [arg], "amplitude block")
+                m["amps"].append({"sf": pend["sf"], "ls": pend["ls"], "amp": arg, "comment": pend.get("comment"), "registered": False})
+                pend = {}
+            elif target == "DK3P_DI.amplitudes_B":
+                if not (arg[0] == "c" and arg[1] == "amplitudes_list.back" and m["amps"]):
+                    raise Unreadable(f"registration statement {arg!r}"[:200])
+                m["amps"][-1]["registered"] = True
+            else:
+                m["other_statements"].append(head)
+        else:
+            m["other_statements"].append(" ".join(v for _, v in t[:4]))
+    if pend:
+        raise Unreadable("spin-factor / lineshape list without its amplitude at the end of the text")
+    if not seen_masses and not m["amps"] and not m["consts"]:
+        raise Unreadable("neither constants, particle masses nor amplitudes found")
     env = {n: ("var", q) for n, (q, _) in m["resvars"].items()}
     env.update({n: ("var", q) for n, (q, _, _) in m["pars"].items()})
     env.update({n: [env.get(x, x) for x in items] for n, items in m["arrays"].items()})
@@ -257,7 +355,43 @@ class _Rec:
 
 
 class _DecayInfo:
-    pass
+    """Stand-in for goofit.DecayInfo4: remembers how many API calls had been made when the masses were assigned."""
+
+    _calls = None
+    _mark = None
+
+    def __setattr__(self, n, v):
+        if n == "particle_masses" and _DecayInfo._calls is not None and _DecayInfo._mark is None:
+            _DecayInfo._mark = len(_DecayInfo._calls)
+        object.__setattr__(self, n, v)
+
+
+def _py_layout(text):
+    """From the syntax tree and the comment tokens (not from the line layout): the names in the particle-mass
+    assignment and, per spin-factor statement, the last comment in front of it that is not a 'Line N' marker."""
+    import ast  # noqa: PLC0415
+    import io  # noqa: PLC0415
+    import tokenize  # noqa: PLC0415
+
+    tree = ast.parse(text)
+    masses = None
+    sf_lines = []
+    ends = []
+    for st in tree.body:
+        ends.append((st.lineno, st.end_lineno))
+        if isinstance(st, ast.Assign) and len(st.targets) == 1 and isinstance(st.targets[0], ast.Attribute) and st.targets[0].attr == "particle_masses":
+            if isinstance(st.value, ast.Tuple | ast.List):
+                masses = [e.id if isinstance(e, ast.Name) else ast.unparse(e) for e in st.value.elts]
+        if isinstance(st, ast.Expr) and isinstance(st.value, ast.Call) and isinstance(st.value.func, ast.Attribute) \
+                and isinstance(st.value.func.value, ast.Name) and st.value.func.value.id == "spin_factor_list":
+            sf_lines.append(st.lineno)
+    coms = [(t.start[0], t.string[1:].strip()) for t in tokenize.generate_tokens(io.StringIO(text).readline) if t.type == tokenize.COMMENT]
+    comments = []
+    for ln in sf_lines:
+        prev_end = max([e for s0, e in ends if e < ln], default=0)
+        mine = [c for l0, c in coms if prev_end < l0 < ln and not re.fullmatch(r"Line \d+", c)]
+        comments.append(mine[-1] if mine else None)
+    return masses, comments
 
 
 def run_py(text, preseed=None):
@@ -273,46 +407,42 @@ def run_py(text, preseed=None):
     g.__all__ = [*names, *MASS_SYMS, "DecayInfo4"]
     old = sys.modules.get("goofit")
     sys.modules["goofit"] = g
+    _DecayInfo._calls, _DecayInfo._mark = calls, None
     try:
         ns = dict(preseed or {})
         code = compile(text, "<generated goofit python>", "exec")
         exec(code, ns)  # noqa: S102
     finally:
+        mark = _DecayInfo._mark
+        _DecayInfo._calls = None
         if old is None:
             del sys.modules["goofit"]
         else:
             sys.modules["goofit"] = old
     m = {"event": None, "constants": {}, "resonance_variables": {}, "parameters": {}, "amps": [], "arrays_resolved": {}}
-    ev = re.search(r"#Event type: (.*)", text)
+    ev = re.search(r"Event type: (.*)", text)
     m["event"] = ev.group(1).strip() if ev else None
     di = ns.get("DK3P_DI")
     m["masses_values"] = list(getattr(di, "particle_masses", ()) or ())
     m["amplitudes_assigned"] = getattr(di, "amplitudes", None) is ns.get("amplitudes_list") and ns.get("amplitudes_list") is not None
-    mm = re.search(r"DK3P_DI.particle_masses = \((.*?)\)", text)
-    m["masses"] = mm.group(1).replace(" ", "").split(",") if mm else None
-    try:
-        intro = text[text.index("#Intro"): text.index("# Parameters")]
-        pars = text[text.index("# Parameters"): text.index("# Lines")]
-    except ValueError as e:
-        raise Unreadable("sections '#Intro' / '# Parameters' / '# Lines' missing") from e
-    for name, val in re.findall(r"^(\w+)\s*=\s*([-+0-9.eE]+)\s*$", intro, re.M):
-        if name in ns and isinstance(ns[name], float | int):
-            m["constants"][name] = float(val)
-    for name, q in re.findall(r'^(\w+)\s*=\s*Variable\("([^"]*)"', intro, re.M):
-        v = ns.get(name)
-        if isinstance(v, tuple) and v[1] == "Variable":
-            m["resonance_variables"][q] = float(v[2][1])
-    for name, q in re.findall(r'^(\w+)\s*=\s*Variable\("([^"]*)"', pars, re.M):
-        v = ns.get(name)
-        if isinstance(v, tuple) and v[1] == "Variable":
-            args = v[2]
-            m["parameters"][q] = {"value": float(args[1]), "error": float(args[2]) if len(args) > 2 else None, "fixed": len(args) <= 2}
+    m["masses"], comments = _py_layout(text)
+    pre = set(preseed or {})
+    where = {id(c): i for i, c in enumerate(calls)}
     for name, v in ns.items():
-        if isinstance(v, list) and v and all(isinstance(x, tuple) and len(x) == 4 and x[1] == "Variable" for x in v) and name not in ("amplitudes_list",):
+        if name.startswith("__") or name in pre:
+            continue
+        if isinstance(v, float | int) and not isinstance(v, bool):
+            m["constants"][name] = float(v)
+        elif isinstance(v, tuple) and len(v) == 4 and v[1] == "Variable" and id(v) in where:
+            args = v[2]
+            if mark is not None and where[id(v)] < mark and len(args) == 2:
+                m["resonance_variables"][args[0]] = float(args[1])
+            else:
+                m["parameters"][args[0]] = {"value": float(args[1]), "error": float(args[2]) if len(args) > 2 else None, "fixed": len(args) <= 2}
+        elif isinstance(v, list) and v and all(isinstance(x, tuple) and len(x) == 4 and x[1] == "Variable" for x in v) and name not in ("amplitudes_list",):
             m["arrays_resolved"][name] = [x[2][0] for x in v]
     amps = ns.get("amplitudes_list") or []
     sfl, lfl = ns.get("spin_factor_list") or [], ns.get("line_factor_list") or []
-    comments = re.findall(r"^# Line \d+\n#(.*)$", text, re.M)
     for idx, a in enumerate(amps):
         if not (isinstance(a, tuple) and a[1] == "Amplitude" and len(a[2]) == 6):
             raise Unreadable(f"unexpected Amplitude record {a!r}")
@@ -330,7 +460,7 @@ def run_py(text, preseed=None):
         if "lineshapes" in bare:
             lref = [lref]
         m["amps"].append({"name": name, "n": int(n), "coeffs": coeffs, "bare": bare, "sf": [norm_sf(norm_py(x)) for x in sref], "ls": [norm_ls(norm_py(x)) for x in lref],
-                          "comment": comments[idx].strip() if idx < len(comments) else None,
+                          "comment": comments[idx] if idx < len(comments) else None,
                           "own_lists": (idx < len(lfl) and lref is lfl[idx]) and (idx < len(sfl) and sref is sfl[idx])})
     m["n_variable_calls"] = sum(1 for c in calls if c[1] == "Variable")
     m["n_api_calls"] = len(calls)
